@@ -95,7 +95,8 @@ def main():
                                 "from twlint import facts as F; F.REPO=%r\n"
                                 "from twlint.runner import run_property\n"
                                 "mod,rep,cfgs,metas,wall=run_property(%r,'quick',%r)\n"
-                                "import json; print(json.dumps([v.to_json() for v in rep.violations]))" % (VERIF, SCRATCH, prop, SCRATCH)],
+                                "from twlint.runner import load_known; K={k for p_,k,t in load_known() if p_==%r}\n"
+                                "import json; print(json.dumps([v.to_json() for v in rep.violations if v.key not in K]))" % (VERIF, SCRATCH, prop, SCRATCH, prop)],
                                cwd=VERIF, capture_output=True, text=True)
             try:
                 vs = json.loads(c.stdout.strip().splitlines()[-1])
